@@ -76,7 +76,8 @@ def ics_class(ics, rows):
 
 def sym_ocs_choices(rng):
     return [['mrl', 0], ['mrl', 2], ['fmrl', 0], ['size', 0], ['size', 1], ['size', -2], ['size', -80],
-            ['mrl', rng.randint(0, 200)], ['mrl', 2 * rng.randint(1, 400)], ['abs', 1 << 20], ['size', -rng.randint(1, 400)]]
+            ['mrl', rng.randint(0, 200)], ['mrl', 2 * rng.randint(1, 400)], ['abs', 1 << 20], ['size', -rng.randint(1, 400)],
+            ['size', -1], ['size', 2], ['mrl', 1], ['size', -81], ['size', -79]]
 
 
 def mrl_of(history):
